@@ -806,7 +806,7 @@ class PatternV:
         self.pattern = pattern
 
 
-BUILTINS = {"object", "slice", "divmod", "next", "iter", "reversed", "print", "input", "id", "setattr", "hasattr", "getattr", "callable", "round", "abs", "super", "map", "filter", "str", "int", "len", "isinstance", "bool", "list", "tuple", "enumerate", "zip", "all", "any", "float", "repr", "type", "dict", "set", "range", "sorted", "min", "max"}
+BUILTINS = {"format", "ord", "chr", "object", "slice", "divmod", "next", "iter", "reversed", "print", "input", "id", "setattr", "hasattr", "getattr", "callable", "round", "abs", "super", "map", "filter", "str", "int", "len", "isinstance", "bool", "list", "tuple", "enumerate", "zip", "all", "any", "float", "repr", "type", "dict", "set", "range", "sorted", "min", "max"}
 
 
 def decorators(fn):
@@ -932,6 +932,10 @@ class Ev:
                 return (a.text() in b.text()) == isinstance(op, ast.In)
             if isinstance(b, Str) and isinstance(a, Str) and a.is_lit() and _sym_safe(b, a.text()):
                 return any(p[0] == "lit" and a.text() in p[1] for p in b.pieces) == isinstance(op, ast.In)
+            if self.oracle is not None:
+                r = self.oracle("In", a, b)
+                if r is not None:
+                    return r == isinstance(op, ast.In)
             raise Undecided("membership %r in %r" % (a, b))
         if isinstance(a, SetV) and isinstance(b, SetV) and isinstance(op, (ast.Lt, ast.LtE, ast.Gt, ast.GtE)):
             sub = all(any(same(x, y) for y in b.items) for x in a.items)
@@ -1901,6 +1905,15 @@ class Ev:
     def builtin(self, name, args, kwargs, e):
         if name == "str":
             return self.to_str(args[0]) if args else Str()
+        if name == "format" and len(args) == 2:
+            # a value printed under a format specification: a text of its own (not the plain text of the value)
+            if isinstance(args[1], Str) and args[1].is_lit() and args[1].text() == "":
+                return self.to_str(args[0])
+            return Ctor("format", {"value": args[0], "spec": args[1]}, kind="call")
+        if name == "ord" and len(args) == 1 and isinstance(args[0], Str) and args[0].is_lit() and len(args[0].text()) == 1:
+            return ord(args[0].text())
+        if name == "chr" and len(args) == 1 and isinstance(args[0], int) and not isinstance(args[0], bool):
+            return Str.lit(chr(args[0]))
         if name == "int":
             return self.to_int(args[0])
         if name == "bool":
@@ -2231,6 +2244,29 @@ class Ev:
                 return Obj(None, {"args": TupV([b[p_] for p_ in order if p_ in b]), "kwargs": DictV({}), "arguments": DictV({p_: b[p_] for p_ in order if p_ in b})}, closed=True, label="bound arguments")
 
             return Obj(None, {"bind": PyFunc(bind, "Signature.bind"), "parameters": DictV({x.arg: NONE for x in target.fn.args.args})}, closed=True, label="signature of %s" % target.fn.name)
+        if name in ("bisect.bisect_right", "bisect.bisect", "bisect.bisect_left", "bisect_right", "bisect_left", "bisect.insort", "bisect.insort_right", "bisect.insort_left", "insort") and len(args) == 2 and isinstance(args[0], ListV) and set(kwargs) <= {"key"}:
+            # position of x in the sorted list a, found by the comparisons the library makes (x < a[i] / a[i] < x)
+            a, x = args[0], args[1]
+            keyf = kwargs.get("key")
+            kx = (lambda v: self.apply(keyf, [v], {}, e, None)) if keyf is not None and keyf is not NONE else (lambda v: v)
+            left = name.endswith("_left")
+            insort = "insort" in name
+            xv = kx(x) if insort or keyf is None or keyf is NONE else x
+            lo, hi = 0, len(a.items)
+            while lo < hi:
+                mid = (lo + hi) // 2
+                if left:
+                    go_right = self.truth(self.compare(ast.Lt(), kx(a.items[mid]), xv, e), e)
+                else:
+                    go_right = not self.truth(self.compare(ast.Lt(), xv, kx(a.items[mid]), e), e)
+                if go_right:
+                    lo = mid + 1
+                else:
+                    hi = mid
+            if insort:
+                a.items.insert(lo, x)
+                return NONE
+            return lo
         if name in ("itertools.repeat", "repeat") and args:
             if len(args) == 2 and isinstance(args[1], int):
                 return ListV([args[0]] * args[1])
@@ -2466,6 +2502,23 @@ class Ev:
                 if len(args) > 1 or kwargs:
                     raise AnalysisError("split with maxsplit at line %d" % e.lineno)
                 return str_split(recv, sep.text())
+            if name == "translate" and len(args) == 1 and isinstance(args[0], DictV):
+                # a table {code point: None | text | code point}
+                table = {}
+                for k, v in args[0].d.items():
+                    if not isinstance(k, int) or isinstance(k, bool):
+                        raise Undecided("translate table key %r" % (k,))
+                    if v is NONE:
+                        table[k] = None
+                    elif isinstance(v, Str) and v.is_lit():
+                        table[k] = v.text()
+                    elif isinstance(v, int) and not isinstance(v, bool):
+                        table[k] = v
+                    else:
+                        raise Undecided("translate table value %r" % (v,))
+                if not _sym_safe(recv, "".join(chr(k) for k in table)):
+                    return Frag("translate may alter %s" % recv.text())
+                return Str([("lit", p[1].translate(table)) if p[0] == "lit" else p for p in recv.pieces])
             if name == "replace":
                 a, b = args[0], args[1]
                 if not (isinstance(a, Str) and a.is_lit() and isinstance(b, Str) and b.is_lit()):
